@@ -333,7 +333,9 @@ def random_instance(rnd, family, stable=False):
     ops = [{'op': 'set_initial', 'pos': init_pos, 'spd': init_spd}, {'op': 'new_solver', 'sid': 1}]
 
     def run(sid, n, cont_unit=False):
-        op = {'op': 'run', 'sid': sid, 'dt': dt, 'T': dt * n}
+        # a continued run may use another time step (and another unit) than the run before it
+        d = dt * rnd.choice([F(1), F(1), F(1, 2), F(1, 4), F(2), F(3, 2)]) if cont_unit else dt
+        op = {'op': 'run', 'sid': sid, 'dt': d, 'T': d * n}
         if family in ('control', 'mixed', 'lock') and rnd.random() < (0.9 if family == 'control' else 0.5):
             inst['ctrls'].append(random_rules(rnd, elems, dt, n))
             op['ctrl'] = len(inst['ctrls']) - 1
